@@ -399,6 +399,9 @@ def response_ok(model: Model, folder: Folder, q: str, r, p) -> Tuple[bool, str]:
             return True, "no response for a peer-initiated termination"
         return False, "no notification attached although the error was not a peer-initiated termination"
     if not (isinstance(r, Packed) and isinstance(r.of, Obj)):
+        if desc(r).startswith("?global:"):
+            # a module-level name the session interpreter does not evaluate (a payload packed once at import): what it holds is not read here
+            raise AnalysisError(f"{q}: the response attached to the ProtocolError is the module-level value `{desc(r)[8:]}`, which is not followed to the message it was packed from")
         return False, f"response is {desc(r)}, not pack() of a message"
     o = r.of
     mid = o.fields.get("message_id")
